@@ -2,6 +2,7 @@
 import sys
 
 from sa import rules_state as RSTATE
+from sa import rules_r10 as R10
 from sa import rules_grammar as RG
 from sa import crosslist as XL
 from sa import rules_r6b as R6B
@@ -64,6 +65,7 @@ def run(ctx, repo):
     ctx.call(R6B.r_recursion_inventory, repo, ('composer', 'constructor', 'resolver'))
     ctx.call(R6B.r_value_chain_visited, repo)
     ctx.call(R6B.r_yamlobject_loaders, repo)
+    ctx.call(R10.r_metaclass_own_targets, repo)
     ctx.call(R6B.r_no_module_getattr, repo)
 
 
